@@ -377,7 +377,7 @@ type deserOp struct {
 	name  string
 	write func(se *serializer.Serializer) (marks []mark) // marks relative to the op's start
 	read  func(d *serializer.Deserializer)
-	// the reader's own rules turn the un-faulted encoding down: an error is the expected answer
+	// the reader's own rules may turn the un-faulted encoding down: success is not required
 	rejects bool
 }
 
@@ -604,10 +604,9 @@ func faultDeserBody(s *simrt.Sim) {
 	}
 	n, ok := probe(s, &fr.st, fr.target, "none", "unfaulted", data, true, call(data))
 	if ops[0].rejects {
-		s.Probe("reader-rules-turn-the-unfaulted-encoding-down")
-		if ok {
-			s.Fail("deser-validation", "Deserializer:"+ops[0].name+":accepts-what-its-rules-forbid", "reading an un-faulted sequence of 2-byte elements under a uint32 type-uniqueness rule with validation succeeded")
-		}
+		// (whether the rule turns elements without room for a type down or lets them pass is not C02's business: the call
+		// has to return, that is all)
+		s.Probe("reader-rules-may-turn-the-unfaulted-encoding-down")
 	} else if !ok || n != len(data) {
 		s.Fail("deser-roundtrip", "Deserializer:"+ops[0].name, "reading back an unfaulted Serializer output returned n=%d ok=%v (len %d)", n, ok, len(data))
 	}
